@@ -135,7 +135,7 @@ static Verdict run_many_ifs(const Case &c) {
     HCfg h = HCfg::from_case(c);
     World w;
     h.apply_global(w);
-    int n = (int)std::max<int64_t>(2, std::min<int64_t>(c.c(8, 5), 8));
+    int n = (int)std::max<int64_t>(2, std::min<int64_t>(c.c(8, 5), 12));
     std::vector<int> ifi; std::vector<Mac> own;
     for (int k = 0; k < n; k++) { IfCfg ic = h.ifcfg(); ic.mac = mac_from_u64(h.own + ((uint64_t)k << 16)); own.push_back(ic.mac); ifi.push_back(w.add_if(ic)); }
     Mac m = h.st_real(0);
@@ -171,7 +171,7 @@ int main(int argc, char **argv) {
     Evidence ev;
     ev.rule = "(1) generated histories with every request type, noise/mutated frames, failing transmits, repeated icon requests, platform icon swaps and Resets at random points, repeated cyclically to 10^3 (quick) / 10^5 (thorough) frames; "
               "after EVERY frame the port's ledger must show <= record + observations-possibly-retained + icon-cache blocks, and after every topology Reset exactly the per-interface record (same byte count as after the first frame). "
-              "(3) two to eight interfaces of one host alive at once, frames rotating between them: one record, its observations and its icon per interface, one record per interface after a Reset on each. (2) floods of n pairwise-distinct Probes/Trains addressed to this station without a Query (and variants where the mapper queries every 1500 probes, i.e. partial drains while the flood refills, where every frame claims the active mapper as its real source, and where one Ethernet source carries all the distinct real sources) (n = 4096, 16384, 65536; thorough 100000, with interleaved Emit/QueryLargeTlv): retained bytes <= 1 MiB + icon and not growing after 16384. "
+              "(3) two to eleven interfaces of one host alive at once, frames rotating between them: one record, its observations and its icon per interface, one record per interface after a Reset on each. (2) floods of n pairwise-distinct Probes/Trains addressed to this station without a Query (and variants where the mapper queries every 1500 probes, i.e. partial drains while the flood refills, where every frame claims the active mapper as its real source, and where one Ethernet source carries all the distinct real sources) (n = 4096, 16384, 65536; thorough 100000, with interleaved Emit/QueryLargeTlv): retained bytes <= 1 MiB + icon and not growing after 16384. "
               "non-trivial = history with >= 100 frames containing every request type, or a flood with n >= 4096; distinct = digest of the case";
     bool ok = true;
     // floods (deterministic family)
@@ -188,7 +188,7 @@ int main(int argc, char **argv) {
         if (!v.ok) { write_file(a.failing, "# c19-flood: " + v.why + "\n" + c.to_text()); fprintf(stderr, "FAIL part=c19-flood %s\n", v.why.c_str()); ok = false; }
     }
     // several interfaces at once (deterministic family)
-    for (int n = 2; n <= 8 && ok; n++) for (int rounds : {1, 3}) {
+    for (int n = 2; n <= 11 && ok; n++) for (int rounds : {1, 3}) {
         if (!ok || (size_t)(n * 2 + rounds) % a.nshards != (size_t)a.shard) continue;
         HCfg h; h.part = 2; h.mtu = n % 2 ? 576 : 1500; h.icon = Bytes(900, 9);
         Case c; h.to_case(c);
